@@ -309,7 +309,7 @@ class ProvXMLSerializer(Serializer):
         """
         rec_label = FULL_NAMES_MAP[rec_type]
 
-        for key, value in list(attributes):
+        for index, (key, value) in enumerate(attributes):
             if key != PROV_TYPE:
                 continue
             if isinstance(value, prov.model.Literal):
@@ -319,7 +319,9 @@ class ProvXMLSerializer(Serializer):
                 and PROV_BASE_CLS[value] != value
                 and PROV_BASE_CLS[value] == rec_type
             ):
-                attributes.remove((key, value))
+                # remove this very pair (an equal pair, e.g. the same URI given
+                # as xsd:anyURI, is another value and stays)
+                del attributes[index]
                 rec_label = FULL_NAMES_MAP[value]
                 break
         return rec_label
